@@ -6,15 +6,19 @@
 \* the contract allows.
 \*
 \* Loops = "fixed": the scan visits every slot once, starting at the index.
-\* Loops = "getfixed": only the loop of Get is repaired (the blind spot of Put's loop is then unreachable).
 \* Loops = "pinned": the loops of the pinned tree, `stopAt := index - 1; for i := index; i != stopAt; ...`,
-\*   which never look at slot index-1 (when index > 0).  TLC finds operation sequences after which Get
-\*   answers nil/New() although the pool holds an item and Put drops its argument; with Emit they are
-\*   printed (one JSON script per violating sequence) and replayed against the real package.
+\*   which never look at slot index-1 (when index > 0).  TLC finds operation sequences (8 operations) after
+\*   which Get answers nil/New() although the pool holds an item.
+\* Loops = "getfixed": only the loop of Get is repaired; TLC finds sequences (17 operations) after which Put
+\*   drops its argument (Size() one too small, the item is never returned).
+\*   With Report the violating sequences of the two fault variants are printed (one JSON script each) and
+\*   replayed against the real package as directed scripts.
 \* The same module generates random sequential scripts (TLC -simulate, Emit = TRUE).
 EXTENDS USyncSeq, Json, TLC
 
-CONSTANTS MaxOps, Loops, Emit, Report   \* Report: print violating sequences instead of stopping at the first
+CONSTANTS MaxOps, Loops, Emit,
+          Report,  \* print violating sequences instead of stopping at the first
+          Lean     \* exhaustive runs: only Put(x), Get and Size (deeper sequences)
 
 VARIABLES pool, cnt, gi, pi, hasNew, abs, hist, nput, bad, done
 vars == <<pool, cnt, gi, pi, hasNew, abs, hist, nput, bad, done>>
@@ -56,7 +60,7 @@ Ring(o) ==
     [] o.op = "size" -> [res |-> Res("int", cnt), pool |-> pool, cnt |-> cnt, gi |-> gi, pi |-> pi]
     [] o.op = "max" -> [res |-> Res("int", Len(pool)), pool |-> pool, cnt |-> cnt, gi |-> gi, pi |-> pi]
 
-OpNames == {"put", "get", "putnil", "size", "max"}
+OpNames == IF Lean THEN {"put", "get", "size"} ELSE {"put", "get", "putnil", "size", "max"}
 \* simulation draws the operation from this list (biased towards put and get)
 Weighted == <<"put", "put", "put", "get", "get", "get", "putnil", "size", "max">>
 
